@@ -138,6 +138,57 @@ pub fn run(o: &Opts) -> Report {
             }
         }
     }
+    // a three-level tree with a propagated version: names derived from the path (`tool-remote-add 1.0`), the generated
+    // `help` subcommand addressed through itself (`help help <sub>`), unknown flags that send the suggestion search into
+    // the subcommands - with every kind of operation in between, kinds AND messages compared with a fresh definition
+    {
+        use clap::{Arg, ArgAction};
+        let deep = || Command::new("tool").version("1.0").propagate_version(true)
+            .subcommand(Command::new("remote").about("manage remotes")
+                .subcommand(Command::new("add").arg(Arg::new("name").long("name").action(ArgAction::Set)))
+                .subcommand(Command::new("rm")))
+            .subcommand(Command::new("status").arg(Arg::new("short").long("short").action(ArgAction::SetTrue)));
+        let t = |v: &[&str]| -> Vec<Vec<u8>> { v.iter().map(|x| x.as_bytes().to_vec()).collect() };
+        let pool = vec![t(&["tool", "--zzzzzz"]), t(&["tool", "remote", "add", "--version"]), t(&["tool", "remote", "add", "--help"]), t(&["tool", "remote", "--zzzz"]),
+            t(&["tool", "help", "help", "status"]), t(&["tool", "remote", "help", "help", "add"]), t(&["tool", "help", "remote", "add"]), t(&["tool", "remote", "add", "--name", "x"]),
+            t(&["tool", "remote", "add", "--nam"]), t(&["tool", "statu"]), t(&["tool", "remote", "-V"]), t(&["tool", "--shor"]), t(&["tool", "remote", "rm", "extra"])];
+        let fresh: Vec<(String, String)> = pool.iter().map(|a| { let mut c = deep(); run_parse(&mut c, a) }).collect();
+        let ops = [Op::Build, Op::Help, Op::LongHelp, Op::Usage, Op::Clone];
+        let mut hists: Vec<Vec<Op>> = vec![];
+        for a in &ops { for i in 0..pool.len() { hists.push(vec![a.clone(), Op::Parse(i)]); } }
+        for i in 0..pool.len() { for j in 0..pool.len() { hists.push(vec![Op::Parse(i), Op::Parse(j)]); } }
+        for _ in 0..(if o.thorough() { 400 } else { 60 }) {
+            let l = 3 + rng.below(5);
+            hists.push((0..l).map(|_| match rng.below(10) { 0 => Op::Build, 1 => Op::Help, 2 => Op::LongHelp, 3 => Op::Usage, 4 => Op::Clone, _ => Op::Parse(rng.below(pool.len())) }).collect());
+        }
+        for h in &hists {
+            let mut cmd = deep();
+            let mut trace: Vec<String> = vec![];
+            for op in h {
+                match op {
+                    Op::Build => cmd.build(),
+                    Op::Help => { let _ = cmd.render_help(); }
+                    Op::LongHelp => { let _ = cmd.render_long_help(); }
+                    Op::Usage => { let _ = cmd.render_usage(); }
+                    Op::Clone => cmd = cmd.clone(),
+                    Op::Parse(i) => {
+                        let got = run_parse(&mut cmd, &pool[*i]);
+                        let key = format!("deep-version-tree argv={:?} after {trace:?}", pool[*i].iter().map(|x| String::from_utf8_lossy(x).to_string()).collect::<Vec<_>>());
+                        // `build()` expands the tree of the generated help subcommand, lazy building does not (F21 / F27)
+                        let via_help = pool[*i].iter().any(|w| w == b"help") && trace.iter().any(|t| t == "Build");
+                        if got.0 != fresh[*i].0 {
+                            rep.oracle_fail(if via_help { "parse-result-depends-on-history:help-subcommand-after-build" } else { "parse-result-depends-on-history" }, &key, &format!("got {} | fresh {}", &got.0[..got.0.len().min(300)], &fresh[*i].0[..fresh[*i].0.len().min(300)]));
+                        } else if got.1 != fresh[*i].1 {
+                            rep.oracle_fail(if via_help { "error-message-depends-on-history:help-subcommand-usage-after-build" } else { "error-message-depends-on-history" }, &key, &format!("got {:?} | fresh {:?}", &got.1[..got.1.len().min(300)], &fresh[*i].1[..fresh[*i].1.len().min(300)]));
+                        }
+                        rep.case(&key, !trace.is_empty());
+                        rep.count("parses_in_deep_tree_histories");
+                    }
+                }
+                trace.push(format!("{op:?}").split('(').next().unwrap().to_string());
+            }
+        }
+    }
     rep.count_n("commands", done as u64);
     if o.driver != "none" {
         let model = driver_batch(&o.driver, &reqs, o.par);
